@@ -29,14 +29,106 @@ func init() {
 	})
 }
 
-// isTeardownCall: in is a (non-go) call of the teardown function.
-func (c *Ctx) isTeardownCall(in ssa.Instruction) bool {
+// mustDo: every path through fn (entry to return) performs `kind`
+// ("done": Done on the connection WaitGroup; "teardown": a call of the
+// teardown), directly or through an awaited call of a function that must.
+func (c *Ctx) mustDo(fn *ssa.Function, kind string, seen map[*ssa.Function]bool) bool {
+	if fn == nil || fn.Blocks == nil || !c.InModuleFn(fn) || seen[fn] {
+		return false
+	}
+	seen[fn] = true
+	defer delete(seen, fn)
+	ok, _ := AllPathsFromEntryPass(fn, func(in ssa.Instruction) bool { return c.doesKind(in, kind, seen) })
+	return ok
+}
+
+func (c *Ctx) doesKind(in ssa.Instruction, kind string, seen map[*ssa.Function]bool) bool {
+	if _, isGo := in.(*ssa.Go); isGo {
+		return false
+	}
+	switch kind {
+	case "done":
+		if c.isWGCall(in, c.A.WG, "Done") {
+			return true
+		}
+	case "teardown":
+		if cc := callOf(in); cc != nil && !cc.IsInvoke() && cc.StaticCallee() == c.A.Teardown {
+			return true
+		}
+	}
 	cc := callOf(in)
 	if cc == nil || cc.IsInvoke() {
 		return false
 	}
-	_, isGo := in.(*ssa.Go)
-	return cc.StaticCallee() == c.A.Teardown && !isGo
+	callee := cc.StaticCallee()
+	if callee == nil || callee == c.A.Teardown || callee == c.A.TeardownCore || callee.Package() != c.Client {
+		return false
+	}
+	if _, isDefer := in.(*ssa.Defer); isDefer && kind == "teardown" {
+		return false
+	}
+	return c.mustDo(callee, kind, seen)
+}
+
+// isDoneLike: in leaves the connection WaitGroup (directly or via a wrapper).
+func (c *Ctx) isDoneLike(in ssa.Instruction) bool {
+	return c.doesKind(in, "done", map[*ssa.Function]bool{})
+}
+
+// isTeardownCall: in is a (non-go) call of the teardown function, or of a
+// wrapper all of whose paths call it.
+func (c *Ctx) isTeardownCall(in ssa.Instruction) bool {
+	return c.doesKind(in, "teardown", map[*ssa.Function]bool{})
+}
+
+// coreDominatesEvent: the event dispatch at site happens only after an
+// instruction satisfying pred has executed in the teardown core. When the
+// teardown is split (event function calls the core), the dispatch must be
+// guarded by a boolean result of the core that is non-false only on paths
+// dominated by pred.
+func (c *Ctx) coreDominatesEvent(pred func(ssa.Instruction) bool, site ssa.Instruction) (bool, string) {
+	a := c.A
+	core, ev := a.TeardownCore, site.Parent()
+	if core == ev {
+		if SetDominates(ev, pred, site) {
+			return true, "dominates the dispatch"
+		}
+		return false, "does not dominate the dispatch"
+	}
+	for _, cd := range CondsAt(site.Block()) {
+		cd = unwrapNot(cd)
+		ex, ok := cd.V.(*ssa.Extract)
+		var call *ssa.Call
+		idx := 0
+		if ok {
+			call, _ = ex.Tuple.(*ssa.Call)
+			idx = ex.Index
+		} else if cl, isCall := cd.V.(*ssa.Call); isCall {
+			call = cl
+		}
+		if call == nil || call.Call.StaticCallee() != core || !cd.True {
+			continue
+		}
+		good := true
+		funcInstrs(core, func(in ssa.Instruction) {
+			rt, isR := in.(*ssa.Return)
+			if !isR || idx >= len(rt.Results) {
+				return
+			}
+			v := retVal(rt, idx)
+			if k, isC := v.(*ssa.Const); isC && k.Value != nil && k.Value.String() == "false" {
+				return
+			}
+			if !SetDominates(core, pred, rt) {
+				good = false
+			}
+		})
+		if good {
+			return true, "dispatch guarded by a result of " + c.FuncKey(core) + " that is non-false only after it"
+		}
+		return false, "a non-false result of " + c.FuncKey(core) + " is returned on a path that skips it"
+	}
+	return false, "the dispatch is not guarded by a result of " + c.FuncKey(core)
 }
 
 // queueOrIOMember: member directly operates on a Conn queue or the socket.
@@ -129,7 +221,7 @@ func runC06(c *Ctx) {
 	r.Exactly("R1", "dispatch sites of REGISTER", nReg, 1)
 
 	// ---- R2 / R4
-	td := a.Teardown
+	td := a.TeardownCore
 	r.Funcs[c.FuncKey(td)] = true
 	var loads, clears []ssa.Instruction
 	funcInstrs(td, func(in ssa.Instruction) {
@@ -144,15 +236,16 @@ func runC06(c *Ctx) {
 	})
 	r.Exactly("R2", "loads of the connected flag in the teardown", len(loads), 1)
 	r.Exactly("R2", "stores of false to the connected flag in the teardown", len(clears), 1)
-	for _, e := range c.EventDispatches(td, a) {
+	for _, e := range c.EventDispatches(a.Teardown, a) {
 		if e.Cmd != "DISCONNECTED" || len(loads) != 1 || len(clears) != 1 {
 			continue
 		}
 		L, S := loads[0], clears[0]
 		ok, why := true, "Lock; load; branch; store false with the mutex held and no Unlock in between; store dominates the dispatch"
+		domOK, domWhy := c.coreDominatesEvent(func(in ssa.Instruction) bool { return in == S }, e.Site)
 		switch {
-		case !instrDominates(S, e.Site):
-			ok, why = false, "store of false does not dominate the DISCONNECTED dispatch"
+		case !domOK:
+			ok, why = false, "store of false "+domWhy
 		case !instrDominates(L, S):
 			ok, why = false, "the flag is cleared without being tested first"
 		case ls.Held(L, mu) != 'W' || ls.Held(S, mu) != 'W':
@@ -180,7 +273,7 @@ func runC06(c *Ctx) {
 			}
 		}
 		r.Add("R2", "test-and-clear:"+c.FuncKey(td), c.InstrPos(S), c.FuncKey(td), "flag is tested and cleared atomically before DISCONNECTED", ok, why)
-		r.Add("R4", "clear-dominates-event:"+c.FuncKey(td), c.InstrPos(e.Site), c.FuncKey(td), "Connected() is false whenever DISCONNECTED handlers run", instrDominates(S, e.Site), "store false dominates dispatch")
+		r.Add("R4", "clear-dominates-event:"+c.FuncKey(td), c.InstrPos(e.Site), c.FuncKey(a.Teardown), "Connected() is false whenever DISCONNECTED handlers run", domOK, "store false "+domWhy)
 	}
 	// flag set true
 	nTrue := 0
@@ -242,7 +335,11 @@ func runC06(c *Ctx) {
 			for _, in := range b.Instrs {
 				n++
 				switch t := in.(type) {
-				case *ssa.Store, *ssa.MapUpdate, *ssa.Send, *ssa.Go, *ssa.Defer:
+				case *ssa.Store:
+					if _, local := t.Addr.(*ssa.Alloc); !local {
+						bad = "store at " + c.InstrPos(in)
+					}
+				case *ssa.MapUpdate, *ssa.Send, *ssa.Go, *ssa.Defer:
 					bad = "side effect at " + c.InstrPos(in)
 				case *ssa.Call:
 					if op, ok := c.lockOpOf(t); !ok || (op.Method != "Unlock" && op.Method != "RUnlock") {
@@ -479,7 +576,7 @@ type teardownFacts struct {
 
 func (c *Ctx) teardownFacts(ls *Locksets) *teardownFacts {
 	a := c.A
-	td := a.Teardown
+	td := a.TeardownCore
 	tf := &teardownFacts{drains: map[*types.Var]bool{}}
 	funcInstrs(td, func(in ssa.Instruction) {
 		if c.isWGCall(in, a.WG, "Wait") {
@@ -649,9 +746,9 @@ func runC07(c *Ctx) {
 	if tf.wait == nil {
 		return
 	}
-	r.Add("R1", "teardown:cancel-before-wait", c.InstrPos(tf.wait), c.FuncKey(a.Teardown), "the teardown cancels the connection context before waiting", tf.cancels, "call of the stored cancel func dominates Wait")
-	r.Add("R1", "teardown:close-socket-before-wait", c.InstrPos(tf.wait), c.FuncKey(a.Teardown), "the teardown closes the socket before waiting", tf.closesSock, "sock.Close() dominates Wait")
-	r.Add("R1", "teardown:drainer", c.InstrPos(tf.wait), c.FuncKey(a.Teardown), "the teardown runs a drainer of both queues that keeps receiving until after Wait", tf.drains[a.In] && tf.drains[a.Out],
+	r.Add("R1", "teardown:cancel-before-wait", c.InstrPos(tf.wait), c.FuncKey(a.TeardownCore), "the teardown cancels the connection context before waiting", tf.cancels, "call of the stored cancel func dominates Wait")
+	r.Add("R1", "teardown:close-socket-before-wait", c.InstrPos(tf.wait), c.FuncKey(a.TeardownCore), "the teardown closes the socket before waiting", tf.closesSock, "sock.Close() dominates Wait")
+	r.Add("R1", "teardown:drainer", c.InstrPos(tf.wait), c.FuncKey(a.TeardownCore), "the teardown runs a drainer of both queues that keeps receiving until after Wait", tf.drains[a.In] && tf.drains[a.Out],
 		fmt.Sprintf("drains in=%v out=%v", tf.drains[a.In], tf.drains[a.Out]))
 	r.Note("locks held by the teardown while waiting: %s (a handler calling Connected()/String() during a disconnect would deadlock; outside the property's quantifier, reported as information)", tf.heldAtWait)
 
@@ -692,7 +789,7 @@ func runC07(c *Ctx) {
 		}
 	}
 	region := c.Closure(roots, func(from *ssa.Function, e Edge) bool {
-		if e.Callee == a.Teardown {
+		if e.Callee == a.Teardown || e.Callee == a.TeardownCore {
 			return false // post-Done tail; handled by R2
 		}
 		if e.Callee.Package() != c.Client {
@@ -719,7 +816,7 @@ func runC07(c *Ctx) {
 		if deferred {
 			continue
 		}
-		preDone[m] = ReachFromEntry(m, func(in ssa.Instruction) bool { return c.isWGCall(in, a.WG, "Done") })
+		preDone[m] = ReachFromEntry(m, c.isDoneLike)
 	}
 	nOps := 0
 	classCount := map[string]int{}
@@ -730,7 +827,7 @@ func runC07(c *Ctx) {
 		r.Funcs[c.FuncKey(fn)] = true
 		inRegion := func(in ssa.Instruction) bool {
 			if pd, ok := preDone[fn]; ok {
-				return pd[in] && !c.isWGCall(in, a.WG, "Done")
+				return pd[in] && !c.isDoneLike(in)
 			}
 			return true
 		}
@@ -843,12 +940,12 @@ func runC07(c *Ctx) {
 	r.Note("blocking operations by release class: %v", classCount)
 	r.Sites = nOps
 
-	// ---- R2
+	// ---- R2: keyed by the WaitGroup member on whose behalf the stale call is made, so that extracting
+	// the "Done; Close" tail into a helper does not change the identity of the finding
 	nStale := 0
-	for _, m := range a.Members {
-		idx := 0
+	staleIn := func(fn *ssa.Function) []ssa.Instruction { // direct Done followed by a reachable teardown call, in fn
 		var sites []ssa.Instruction
-		funcInstrs(m, func(in ssa.Instruction) {
+		funcInstrs(fn, func(in ssa.Instruction) {
 			if !c.isWGCall(in, a.WG, "Done") {
 				return
 			}
@@ -856,13 +953,32 @@ func runC07(c *Ctx) {
 				return
 			}
 			for x := range ReachFrom(in, false, nil) {
-				if c.isTeardownCall(x) {
-					sites = append(sites, x)
+				if cc := callOf(x); cc != nil && !cc.IsInvoke() && cc.StaticCallee() == a.Teardown {
+					if _, isGo := x.(*ssa.Go); !isGo {
+						sites = append(sites, x)
+					}
 				}
 			}
 		})
+		return sites
+	}
+	covered := map[*ssa.Function]bool{}
+	for _, m := range a.Members {
+		var sites []ssa.Instruction
+		sites = append(sites, staleIn(m)...)
+		// calls of helpers that contain a stale teardown call
+		for _, cs := range CallSites(m) {
+			if _, isGo := cs.(*ssa.Go); isGo {
+				continue
+			}
+			if cal := cs.Common().StaticCallee(); cal != nil && cal.Package() == c.Client && cal != a.Teardown && len(staleIn(cal)) > 0 {
+				covered[cal] = true
+				sites = append(sites, cs)
+			}
+		}
 		sort.Slice(sites, func(i, j int) bool { return sites[i].Pos() < sites[j].Pos() })
 		seen := map[ssa.Instruction]bool{}
+		idx := 0
 		for _, s := range sites {
 			if seen[s] {
 				continue
@@ -870,9 +986,17 @@ func runC07(c *Ctx) {
 			seen[s] = true
 			idx++
 			nStale++
-			okTok := c.teardownTakesToken()
-			r.Add("R2", fmt.Sprintf("stale-close:%s#%d", c.FuncKey(m), idx), c.InstrPos(s), c.FuncKey(m), "a goroutine that already left the WaitGroup does not call the identity-less teardown", okTok,
+			r.Add("R2", fmt.Sprintf("stale-close:%s#%d", c.FuncKey(m), idx), c.InstrPos(s), c.FuncKey(m), "a goroutine that already left the WaitGroup does not call the identity-less teardown", c.teardownTakesToken(),
 				"call of "+c.FuncKey(a.Teardown)+" after wg.Done(): it acts on whichever connection is current, so it can tear down the next connection")
+		}
+	}
+	for _, fn := range funcs {
+		if a.IsMember(fn) || covered[fn] {
+			continue
+		}
+		for i, s := range staleIn(fn) {
+			nStale++
+			r.Add("R2", fmt.Sprintf("stale-close:%s#%d", c.FuncKey(fn), i+1), c.InstrPos(s), c.FuncKey(fn), "the identity-less teardown is not called after leaving the WaitGroup", c.teardownTakesToken(), "Done followed by "+c.FuncKey(a.Teardown)+" in a function that is not a member helper")
 		}
 	}
 	r.Note("%d teardown calls after Done (finding F12 when > 0)", nStale)
@@ -1033,7 +1157,7 @@ func (c *Ctx) goCensus(rule string, tf *teardownFacts) {
 	}
 	// each member: exactly one Done per exit
 	for _, m := range a.Members {
-		isDone := func(in ssa.Instruction) bool { return c.isWGCall(in, a.WG, "Done") }
+		isDone := c.isDoneLike
 		deferred, direct := 0, 0
 		funcInstrs(m, func(in ssa.Instruction) {
 			if isDone(in) {
